@@ -192,12 +192,12 @@ def execute(case):
                 x, _ = W.data_for(case['cfg'], 7, self.k)
                 torch.manual_seed(self.k)
                 with torch.no_grad():
-                    rep.model(x)
+                    W.call_model(rep.model, x)
         model = RealGrammar()
         x0, _ = W.data_for(case['cfg'], 7, 0)
         torch.manual_seed(0)
         with torch.no_grad():
-            rep.model(x0)
+            W.call_model(rep.model, x0)
     else:
         from plinio.methods import PIT
         from plinio.cost import params, ops as ops_spec
